@@ -31,6 +31,20 @@ def sut_chebyshev(X, y):
     return np.abs(np.asarray(X, dtype=np.float64) - np.asarray(y, dtype=np.float64)).max(axis=1)
 
 
+def m_sqeuclid(X, y):
+    d = np.asarray(X, dtype=np.float64) - np.asarray(y, dtype=np.float64)
+    return (d * d).sum(axis=1)
+
+
+def sut_sqeuclid(X, y):
+    """A user callable that is NOT a metric (squared Euclidean distance violates the triangle inequality): legal for every
+    entry point that does not ask for the triangle-inequality shortcut."""
+    d = np.asarray(X, dtype=np.float64) - np.asarray(y, dtype=np.float64)
+    return (d * d).sum(axis=1)
+
+
+NON_METRIC = ('callable_sq',)
+
 _REUSE = {}
 
 
@@ -117,12 +131,15 @@ METRICS = {
     'manhattan': m_manhattan,
     'callable': m_chebyshev,
     'callable_reuse': m_chebyshev,
+    'callable_sq': m_sqeuclid,
 }
 
 
 def sut_metric(name):
     if name == 'callable_reuse':
         return sut_chebyshev_reuse
+    if name == 'callable_sq':
+        return sut_sqeuclid
     return sut_chebyshev if name == 'callable' else name
 
 
